@@ -154,22 +154,28 @@ class RecBroker(AsyncBroker):
 class RecBackend(AsyncResultBackend[Any]):
     def __init__(self, env: Env) -> None:
         self.env = env
+        self.stored: Dict[str, Any] = {}
 
     async def set_result(self, task_id: str, result: Any) -> None:
         err = result.error
         cls = "none" if err is None else ("nores" if isinstance(err, NoResultError) else type(err).__name__)
+        self.stored[task_id] = result
         self.env.rec("save", j=self.env.cur_j, tid=tid_code(task_id), ok=not result.is_err, s=cls)
         self.env.rec("seen", pt="res", j=self.env.cur_j, tid=tid_code(task_id), lab=lab_view(result.labels))
 
     async def is_result_ready(self, task_id: str) -> bool:
-        return False
+        return task_id in self.stored
 
     async def get_result(self, task_id: str, with_logs: bool = False) -> Any:
-        raise KeyError(task_id)
+        return self.stored[task_id]
 
 
 class BodyFail(Exception):
     pass
+
+
+class BodyFailBase(BaseException):
+    """A failure that is not an Exception subclass (still a failed attempt)."""
 
 
 def make_send_mw(env: Env, idx: int, spec: Dict[str, Any]) -> TaskiqMiddleware:
@@ -275,6 +281,8 @@ def run(scn: Dict[str, Any]) -> List[Dict[str, Any]]:
             mode = env.mode
             if mode == "fail":
                 raise BodyFail("boom")
+            if mode == "failb":
+                raise BodyFailBase("boom")
             if mode == "nores":
                 raise NoResultError
             if mode == "requeue":
